@@ -98,6 +98,12 @@ func (m *mtrans) eval(env map[string]val, e ast.Expr) val {
 			return scalar("(" + l.s + " " + x.Op.String() + " " + r.s + ")")
 		case token.EQL:
 			return scalar("(" + l.s + " = " + r.s + ")")
+		case token.NEQ:
+			return scalar("(" + l.s + " ≠ " + r.s + ")")
+		case token.LAND:
+			return scalar("(" + l.s + " ∧ " + r.s + ")")
+		case token.LOR:
+			return scalar("(" + l.s + " ∨ " + r.s + ")")
 		}
 	case *ast.SelectorExpr:
 		base := m.deref(env, m.eval(env, x.X))
